@@ -30,6 +30,7 @@ class Profile:
         self.drop_parens = True
         self.wrap_domain = 0.5
         self.eq = True
+        self.hard_lits = True
         self.__dict__.update(kw)
 
 
@@ -53,7 +54,7 @@ class ExprGen:
             return self.rng.choice(INT_LITS)
         if r < 0.8:
             return self.rng.choice(DEC_LITS)
-        if r < 0.95:
+        if r < 0.95 or not self.p.hard_lits:
             return self.rng.choice(SCI_LITS)
         return self.rng.choice(HARD_LITS)
 
